@@ -67,11 +67,11 @@ CLASS_SPACE = len(EV_SHAPES) * 6 * 8 ** 3
 
 
 def classes_strategy(min_size=3, max_size=8):
-    cls = st.integers(0, CLASS_SPACE - 1).map(decode_class)
+    cls = packed(CLASS_SPACE).map(decode_class)
     free = st.lists(cls, min_size=min_size, max_size=max_size)
     # a diamond prefix (A; B(A); C(A); D(B, C)) followed by free classes: keeps multiple-inheritance frequent
     n = len(EV_SHAPES)
-    diamond = st.tuples(st.integers(0, n ** 4 - 1), st.lists(cls, max_size=max_size - 4)).map(
+    diamond = st.tuples(packed(n ** 4), st.lists(cls, max_size=max_size - 4)).map(
         lambda t: [{'bases': [], 'ev': EV_SHAPES[t[0] % n]}, {'bases': [0], 'ev': EV_SHAPES[t[0] // n % n]},
                    {'bases': [0], 'ev': EV_SHAPES[t[0] // n ** 2 % n]},
                    {'bases': [1, 2], 'ev': EV_SHAPES[t[0] // n ** 3 % n]}] + t[1])
@@ -110,7 +110,7 @@ def decode_op(weights):
 
 def ops_strategy(weights, max_ops=40):
     dec, total = decode_op(weights)
-    op = st.tuples(st.integers(0, total - 1), st.integers(0, 16 ** 6 - 1)).map(dec)
+    op = st.tuples(st.integers(0, total - 1), packed(16 ** 6)).map(dec)
     return chunked(op, max_ops)
 
 
@@ -151,6 +151,19 @@ def decode_amp(t):
 
 def amp_strategy():
     return st.tuples(st.integers(0, 127), st.integers(0, 39)).map(decode_amp)
+
+
+def packed(n):
+    """Integers 0..n-1 for packed operands.  Hypothesis draws wide integer ranges with a strong bias towards small
+    magnitudes (8- and 16-bit values), so the high digits of a packed operand would be 0 nearly always; the draw
+    is therefore passed through a bijection of 0..n-1 (multiplication by a large prime modulo n; 0 stays 0, the
+    shrink target) that spreads it over the whole range."""
+    if n <= 16:
+        return st.integers(0, n - 1)
+    a = 2654435761
+    while n % a == 0:
+        a += 2
+    return st.integers(0, n - 1).map(lambda p: (p * a) % n)
 
 
 def size_amp(none=36, sizes=(64, 65, 66, 70, 129, 150)):
